@@ -620,8 +620,10 @@ class VLE(Equilibrium, phases='lg'):
             split_frac = 1
         elif split_frac < 0:
             split_frac = 0
-        self._vapor_mol[self._index] = v = self._F_mol * split_frac * y
-        self._liquid_mol[self._index] = self._mol_vle - v
+        mol = self._mol_vle
+        v = self._F_mol * split_frac * y
+        self._vapor_mol[self._index] = v = np.where(v > mol, mol, v) # Round-off must not leave a negative liquid flow
+        self._liquid_mol[self._index] = mol - v
     
     def set_Tx(self, T, x):
         self._setup()
